@@ -18,11 +18,26 @@ pub fn pair_case(i: u64) -> (u64, u64, u64) {
 /// The plan of run `i` of property `prop` under master seed `master`.
 pub fn plan_for(master: u64, prop: &str, i: u64) -> Plan {
     if prop == "C17" {
-        let (hist, slot, op) = pair_case(i);
-        let mut p = gen(prop, run_seed(master, prop, hist));
-        p.flags.push(format!("pair_slot={}", slot));
-        p.flags.push(format!("pair_op={}", op));
-        p
+        // four two-thread cases, then one three-thread case
+        let (t, r) = (i / 5, i % 5);
+        if r < 4 {
+            let (hist, slot, op) = pair_case(4 * t + r);
+            let mut p = gen(prop, run_seed(master, prop, hist));
+            p.flags.push(format!("pair_slot={}", slot));
+            p.flags.push(format!("pair_op={}", op));
+            p
+        } else {
+            let (hist, slot, op) = pair_case(mix(&[t, 0x3a]) % 12_480);
+            let mut op2 = mix(&[t, 0x3b]) % 13;
+            if op2 == op {
+                op2 = (op2 + 1) % 13;
+            }
+            let mut p = gen(prop, run_seed(master, prop, hist));
+            p.flags.push(format!("pair_slot={}", slot));
+            p.flags.push(format!("pair_op={}", op));
+            p.flags.push(format!("pair_op2={}", op2));
+            p
+        }
     } else {
         gen(prop, run_seed(master, prop, i))
     }
